@@ -862,7 +862,10 @@ class Tracer:
     def callers(self, def_):
         if self._callers is None:
             idx = defaultdict(list)
+            absorbed = getattr(self.facts, "absorbed", None)
             for b in self.facts.all_bodies():
+                if absorbed is not None and absorbed(b):
+                    continue
                 g = graph(b)
                 for c in g.calls():
                     for d in c.targets_def():
@@ -874,7 +877,10 @@ class Tracer:
         """Aggregate statements that build closure/coroutine `def_` -> [(body, bb, idx, rv)]"""
         if self._aggsites is None:
             idx = defaultdict(list)
+            absorbed = getattr(self.facts, "absorbed", None)
             for b in self.facts.all_bodies():
+                if absorbed is not None and absorbed(b):
+                    continue      # the capture site is analysed in the callers this helper was inlined into
                 for i, blk in enumerate(b.blocks):
                     for j, s in enumerate(blk["stmts"]):
                         if s["k"] == "assign" and s["rv"]["k"] == "agg" and s["rv"]["ak"] in ("closure", "coroutine", "coroutine_closure"):
